@@ -397,6 +397,22 @@ def instrument(prop, beh, idx, rng):
                 {"op": "rows", "c": w, "same_as_begin": 2}, {"op": "open", "c": fresh(), "mode": "ro"},
                 {"op": "stmt", "c": w, "id": "u3", "kind": "ins", "key": "i:7004", "cols": {"a": "t:u3"}, "wt": 81},
                 {"op": "rows", "c": w}, {"op": "open", "c": fresh(), "mode": "ro"}, {"op": "bucket"}]
+        # one failing storage mutation at each position of a COMMIT (node PUTs, the version PUT, the retirement of the
+        # previous version): whether the COMMIT fails or not, it is all or nothing - a COMMIT that reports failure has
+        # published no version, one that reports success is seen whole by every later open
+        # (single-node trees only: on multi-level trees every failed COMMIT leaks its INSERT - KF-MAST-1 - and the rest of
+        # the scenario would consist of that finding)
+        for k in (range(0, 7) if not (0 < epn <= 4) else []):
+            out += [{"op": "begin", "c": w},
+                    {"op": "stmt", "c": w, "id": "p%d" % k, "kind": "ins", "key": "i:%d" % (7100 + k), "cols": {"a": "t:p%d" % k}, "wt": 82 + k, "intx": 1},
+                    {"op": "plan", "c": w, "fail_mut_at": k, "kind": rng.choice(["err", "err", "deadline"])},
+                    {"op": "commit", "c": w}, {"op": "heal", "c": w}, {"op": "rollback_any", "c": w},
+                    {"op": "rows", "c": w}, {"op": "open", "c": fresh(), "mode": "ro"}]
+            if k % 3 == 2:
+                # the same for a statement in autocommit mode
+                out += [{"op": "plan", "c": w, "fail_mut_at": k - 1, "kind": "err"},
+                        {"op": "stmt", "c": w, "id": "pa%d" % k, "kind": "ins", "key": "i:%d" % (7150 + k), "cols": {"a": "t:pa%d" % k}, "wt": 92 + k},
+                        {"op": "heal", "c": w}, {"op": "rows", "c": w}, {"op": "open", "c": fresh(), "mode": "ro"}]
         feats.add("tx")
     else:
         raise vf.MachineryError("no instrumentation for " + prop)
